@@ -1,5 +1,7 @@
 import SuxModel.Base.Proto
 import SuxModel.Func.Model
+import SuxModel.Func.ModelSig
+import SuxModel.Func.ModelSort
 import SuxModel.Func.BuildLoop
 /-!
 # Protocol runner `func` (C07, C08, C17)
@@ -9,6 +11,9 @@ model (`BuildLoop.lean`) run on lenders constructed from the fault plan of the l
 configuration knobs (`off lm th eps lb hint seed`, key and value types) are parsed and ignored:
 they do not occur in what the model predicts.  `parts` stores the exported certificate; every
 `get` / `contains` is then evaluated from the exported cells with the model's own edge computation.
+`solve <mode> <list>` re-solves an unsharded function instance with the peeler the real build used
+(`idx` = `peel_by_index` under `lge_shard`, `high` / `low` = the signature peelers of
+`ModelSig.lean`); `solve <list>` is `solve idx <list>`.
 -/
 namespace Sux.Func
 open Sux.Proto
@@ -82,6 +87,75 @@ def parseLogic (s : String) : Option Logic :=
   if s == "shards" then some .shards else if s == "noshards" then some .noshards
   else if s == "fullsigs" then some .fullsigs else none
 
+/-- `[s0, s1, val, …]` → `[((s0, s1), val), …]` (tail recursive: lists of 3·10⁵ numbers occur) -/
+def triplesAux : List Nat → List (Sig × Nat) → List (Sig × Nat)
+  | a :: b :: c :: rest, acc => triplesAux rest (((a, b), c) :: acc)
+  | _, acc => acc.reverse
+
+/-- `idx | high | low`: peel + assign by the named peeler; `lge:<b>:<d>`: the whole of
+    `lge_shard` on the shard in the order the worker sees it (`b` = `log2_buckets` of the
+    signature store, `d` = `check_dups`) -/
+inductive SolveMode where
+  | peel (m : PeelMode)
+  | lge (b : Nat) (dups : Bool)
+
+def parseMode : List String → Option (SolveMode × String)
+  | [lst] => some (.peel .index, lst)
+  | ["idx", lst] => some (.peel .index, lst)
+  | ["high", lst] => some (.peel .high, lst)
+  | ["low", lst] => some (.peel .low, lst)
+  | [m, lst] =>
+    match m.splitOn ":" with
+    | ["lge", b, d] =>
+      match b.toNat?, d.toNat? with
+      | some b, some d => if b ≤ 16 then some (.lge b (d != 0), lst) else none
+      | _, _ => none
+    | _ => none
+  | _ => none
+
+/-- `lge_shard` of the single shard of an unsharded function build, from zeroed data -/
+def solveLge (p : Params) (b : Nat) (dups : Bool) (kvs : List (Sig × Nat)) : String :=
+  match shardOrder p b dups (kvs.map (fun kv => packSV kv.1 kv.2)) with
+  | .ok shard =>
+    let es := (shard.map (fun x => localEdge p (localSig p (svSig x)))).toArray
+    let vals := (shard.map svVal).toArray
+    let nv := numVertices p
+    match lgeShard nv es vals (Array.replicate nv 0) with
+    | .ok (some d) => s!"ok peeled {fmtNatList d.toList}"
+    | .ok none => "ok unsolvable"
+    | .panic => "panic"
+    | .oob => "oob"
+  | .panic => "panic"
+  | .oob => "oob"
+
+/-- peel + assign of one unsharded shard from zeroed data, by the given peeler -/
+def solveBy (p : Params) (mode : PeelMode) (kvs : List (Sig × Nat)) : String :=
+  let es := (kvs.map (fun kv => localEdge p (localSig p kv.1))).toArray
+  let vals := (kvs.map (·.2)).toArray
+  let nv := numVertices p
+  let d0 := Array.replicate nv 0
+  let coreOf : Unit → String := fun _ =>
+    match peelByIndex nv es with
+    | .ok vs => s!"ok core {es.size - vs.length}"
+    | .panic => "panic"
+    | .oob => "oob"
+  match mode with
+  | .index =>
+    match peelAndAssign nv es vals d0 with
+    | .ok (.inr d) => s!"ok peeled {fmtNatList d.toList}"
+    | .ok (.inl k) => s!"ok core {k}"
+    | .panic => "panic"
+    | .oob => "oob"
+  | _ =>
+    let pays := (kvs.map (fun kv => packSV (localSig p kv.1) kv.2)).toArray
+    let r := if mode == .high then peelBySigHigh nv (funcCfg p) pays d0
+             else peelBySigLow nv (funcCfg p) pays d0
+    match r with
+    | .ok (some d) => s!"ok peeled {fmtNatList d.toList}"
+    | .ok none => coreOf ()
+    | .panic => "panic"
+    | .oob => "oob"
+
 def fmtOut {α} (o : Out α) (f : α → String) : String :=
   match o with
   | .ok v => s!"ok {f v}"
@@ -100,7 +174,7 @@ def step (r : RSt) (toks : List String) : RSt × String :=
   | _ =>
     if !r.built then
       match toks with
-      | ("parts" :: _) | ["solve", _] | ["len"] | ["hash_bits"] | ["mask"] | ["get", _, _] | ["getu", _, _]
+      | ("parts" :: _) | ["solve", _] | ["solve", _, _] | ["len"] | ["hash_bits"] | ["mask"] | ["get", _, _] | ["getu", _, _]
       | ["contains", _, _] | ["containsu", _, _] | ["index", _, _] | ["fp", _, _] | ["qbig", _] =>
         (r, "err nofunc")
       | _ => bad
@@ -125,6 +199,17 @@ def step (r : RSt) (toks : List String) : RSt × String :=
         if !r.bfv then (r, "err kind")
         else (r, fmtOut (getBySigUnaligned r.cells r.p r.W r.bw (s0, s1)) toString)
       | _, _ => bad
+    | "solve" :: rest =>
+      match parseMode rest with
+      | none => bad
+      | some (mode, lst) =>
+        if r.filter || numShards r.p != 1 then (r, "err kind") else
+        match parseNatList lst with
+        | some xs =>
+          match mode with
+          | .peel m => (r, solveBy r.p m (triplesAux xs []))
+          | .lge b dups => (r, solveLge r.p b dups (triplesAux xs []))
+        | none => bad
     | [op, s0, s1] =>
       if op == "contains" || op == "index" || op == "containsu" then
         match parseNat s0, parseNat s1 with
@@ -138,23 +223,6 @@ def step (r : RSt) (toks : List String) : RSt × String :=
         | some _, some _ => if r.filter then (r, "ok in-band") else (r, "err kind")
         | _, _ => bad
       else bad
-    | ["solve", lst] =>
-      if r.filter || numShards r.p != 1 then (r, "err kind") else
-      match parseNatList lst with
-      | some xs =>
-        let rec triples : List Nat → List (Sig × Nat)
-          | a :: b :: c :: rest => ((a, b), c) :: triples rest
-          | _ => []
-        let kvs := triples xs
-        let es := (kvs.map (fun kv => localEdge r.p (localSig r.p kv.1))).toArray
-        let vals := (kvs.map (·.2)).toArray
-        let nv := numVertices r.p
-        match peelAndAssign nv es vals (Array.replicate nv 0) with
-        | .ok (.inr d) => (r, s!"ok peeled {fmtNatList d.toList}")
-        | .ok (.inl k) => (r, s!"ok core {k}")
-        | .panic => (r, "panic")
-        | .oob => (r, "oob")
-      | none => bad
     | ["qbig", c] => match parseNat c with
       | some _ => (r, "ok 0") | none => bad
     | _ => bad
